@@ -1,11 +1,11 @@
 package main
 
 import (
-	"regexp"
 	"encoding/json"
 	"errors"
 	"fmt"
 	"reflect"
+	"regexp"
 	goruntime "runtime"
 	"sort"
 	"strconv"
@@ -29,6 +29,7 @@ type Irq struct {
 	Step int    `json:"step"`            // absolute step index at which the function is sent (resolved)
 	AtNs int64  `json:"at_ns,omitempty"` // simulated-time deadline (watchdog); resolved into Step at run time
 	Kind string `json:"kind"`            // noop | mutate | panic_error | panic_string | panic_int | panic_struct | panic_ptr
+	Pre  bool   `json:"pre,omitempty"`   // already queued on the (buffered) channel when the script is started
 	// generation-time anchor (resolved against the reference run, then cleared)
 	Anchor string `json:"anchor,omitempty"`
 	Index  int    `json:"index,omitempty"`
@@ -36,8 +37,8 @@ type Irq struct {
 }
 
 type HostFault struct {
-	Call int    `json:"call"` // hf() call number (1-based) that faults
-	Kind string `json:"kind"` // go_string | go_error | go_int | go_struct | js_type | js_custom
+	Call int    `json:"call"`          // hf() call number (1-based) that faults
+	Kind string `json:"kind"`          // go_string | go_error | go_int | go_struct | js_type | js_custom
 	Any  bool   `json:"any,omitempty"` // count every host-function call of the main program (emit, nid, hf), not only hf
 }
 
@@ -90,45 +91,45 @@ type harnessAbort struct{ why string }
 var catchParamRe = regexp.MustCompile(`catch\((\w+)\)`)
 
 type stepRun struct {
-	c        *StepCase
-	vm       *otto.Otto
-	st       *Stats
-	active   bool
-	step     int
-	clock    int64
-	rng      *Rng
-	journal  []JEntry
-	nextID   int
-	dbgCount int
-	pend     []*pendingIrq
-	halted   bool
-	haltVal  interface{}
-	abort    bool
-	overrun  bool
-	viol     *Violation
-	hfCalls  int
-	anyCalls int
-	faultJournalLen int
+	c                   *StepCase
+	vm                  *otto.Otto
+	st                  *Stats
+	active              bool
+	step                int
+	clock               int64
+	rng                 *Rng
+	journal             []JEntry
+	nextID              int
+	dbgCount            int
+	pend                []*pendingIrq
+	halted              bool
+	haltVal             interface{}
+	abort               bool
+	overrun             bool
+	viol                *Violation
+	hfCalls             int
+	anyCalls            int
+	faultJournalLen     int
 	dynLimit, dynDepth0 int
-	faulted  bool
-	haltJS   bool
-	orig     *otto.Otto
-	foreignSteps int
-	hfVals   []interface{}
-	gid      string
-	maxSteps int
-	minDepthBad bool
-	anchors  *anchorLog // recorded on reference runs
-	flagSteps []int
-	senders   []chan struct{}
+	faulted             bool
+	haltJS              bool
+	orig                *otto.Otto
+	foreignSteps        int
+	hfVals              []interface{}
+	gid                 string
+	maxSteps            int
+	minDepthBad         bool
+	anchors             *anchorLog // recorded on reference runs
+	flagSteps           []int
+	senders             []chan struct{}
 }
 
 type anchorLog struct {
-	afterB    []int // step index right after a 'b' journal entry
-	loopHead  []int
-	inTry     []int
-	deep      []int // steps with scope depth >= 3
-	labelled  []int
+	afterB   []int // step index right after a 'b' journal entry
+	loopHead []int
+	inTry    []int
+	deep     []int // steps with scope depth >= 3
+	labelled []int
 }
 
 var curStep *stepRun
@@ -712,6 +713,16 @@ func execRun(c *StepCase, irqs []Irq, withChan bool, st *Stats, wantAnchors bool
 	if wantAnchors {
 		r.anchors = &anchorLog{}
 	}
+	if r.vm.Interrupt != nil && cap(r.vm.Interrupt) > 0 {
+		// functions a watchdog queued before the host got round to starting the script
+		for _, p := range r.pend {
+			if p.irq.Pre && !p.sent && len(r.vm.Interrupt) < cap(r.vm.Interrupt) {
+				r.vm.Interrupt <- r.makeIrqFn(p)
+				p.sent, p.sentAt = true, 0
+				r.st.Probe("irq_queued_before_start")
+			}
+		}
+	}
 	curStep = r
 	r.active = true
 	val, err, panicked, pv := protectedEntry(r.vm, c.Entry, mainSrc)
@@ -766,15 +777,15 @@ func isPrefix(a, b []JEntry) bool {
 // checkEffects is oracle 5: the durable stores must agree with the journal.
 func checkEffects(journal []JEntry, rb string) string {
 	var d struct {
-		V   map[string]string          `json:"v"`
-		D   map[string][]interface{}   `json:"d"`
-		P   map[string]string          `json:"P"`
-		A   map[string]string          `json:"a"`
-		W   map[string]string          `json:"w"`
-		Arr []string                   `json:"arr"`
-		Log string                     `json:"log"`
-		Gk  string                     `json:"gk"`
-		Srt string                     `json:"srt"`
+		V   map[string]string        `json:"v"`
+		D   map[string][]interface{} `json:"d"`
+		P   map[string]string        `json:"P"`
+		A   map[string]string        `json:"a"`
+		W   map[string]string        `json:"w"`
+		Arr []string                 `json:"arr"`
+		Log string                   `json:"log"`
+		Gk  string                   `json:"gk"`
+		Srt string                   `json:"srt"`
 	}
 	if err := json.Unmarshal([]byte(rb), &d); err != nil {
 		return "readback not parseable: " + err.Error() + ": " + rb
@@ -1075,6 +1086,9 @@ func judge(c *StepCase, r0, r1 *RunResult) *Violation {
 		if p.irq.Kind != "noop" {
 			allNoop = false
 		}
+		if !p.delivered && p.irq.Pre && p.sent && r1.Steps >= 2 {
+			return viol("C18", "irq_not_delivered", "a function queued on the channel before the script was started was never invoked although the script executed %d evaluation steps", r1.Steps)
+		}
 		if !p.delivered {
 			continue
 		}
@@ -1248,6 +1262,9 @@ func genStepCase(t *rapid.T, tier string) *StepCase {
 			q.Off = rapid.IntRange(0, 3).Draw(t, "aoff")
 			if rapid.IntRange(0, 4).Draw(t, "timed") == 4 {
 				q.AtNs = int64(rapid.IntRange(1, 4000).Draw(t, "at_us")) * 1000
+			}
+			if rapid.IntRange(0, 5).Draw(t, "pre") == 5 {
+				q.Pre, q.AtNs, q.Anchor, q.Index, q.Off = true, 0, "", 0, 0
 			}
 			c.Irqs = append(c.Irqs, q)
 		}
@@ -1653,8 +1670,11 @@ func (stepEngine) Exec(ci interface{}, st *Stats) (*Violation, interface{}, bool
 			sort.Ints(ks)
 		}
 		for _, kind := range []string{"noop", "panic_error", "panic_string", "panic_jsvalue"} {
-			for _, k := range ks {
+			for ki, k := range append([]int{-1}, ks...) {
 				irqs := []Irq{{Step: k, Kind: kind}}
+				if ki == 0 {
+					irqs = []Irq{{Kind: kind, Pre: true}} // queued before the script starts
+				}
 				r1 := execRun(c, irqs, true, st, false)
 				if delivered(r1) {
 					st.NonTrivial++
